@@ -1,5 +1,7 @@
 mod attack;
 mod cryptod;
+mod full;
+mod hostile;
 mod local;
 mod mempoold;
 mod multi;
@@ -12,6 +14,9 @@ mod verifym;
 fn main() {
     // A panic inside code under test is data: record it, never abort the harness.
     std::panic::set_hook(Box::new(|info| {
+        if std::env::var("HSVERIF_PRINT_PANICS").is_ok() {
+            eprintln!("PANIC: {}", info);
+        }
         util::record_panic(format!("{}", info));
     }));
     let args: Vec<String> = std::env::args().collect();
@@ -27,6 +32,8 @@ fn main() {
         "rsender" => netd::rsender_main(&rest),
         "batch" => mempoold::batch_main(&rest),
         "qw" => mempoold::qw_main(&rest),
+        "full" => full::main(&rest),
+        "hostile" => hostile::main(&rest),
         "agg" => seq::agg_main(&rest),
         "committee" => seq::committee_main(&rest),
         "store" => seq::store_main(&rest),
